@@ -848,18 +848,26 @@ def check_program(prog):
         diff = [k for k in diff if not (k.endswith(("pickle0", "pickle1")) and isinstance(bs.get(k), list)
                                         and bs[k][0] == "exc" and "__slots__ without defining __getstate__" in bs[k][-1])]
         leaves = [x for k in diff for x in leaf_diffs(bo.get(k), bs.get(k), k)]
-        if diff and all("super(type, obj)" in json.dumps(sv, default=str) for _, _, sv in leaves):
-            fails.append(dict(base, symptom="zero-argument super() fails in a method of the slotted class",
-                              keys=["zero-arg-super"], expected={k: bo.get(k) for k in diff},
-                              got_map={k: bs.get(k) for k in diff},
-                              got=json.dumps({k: bs.get(k) for k in diff[:2]}, default=str)[:600]))
-        elif (diff and base["feature_bare_dict_state"] and all(k.startswith("rt:") for k in diff)
-              and all(isinstance(sv, list) and sv[:2] == ["exc", "AttributeError"]
-                      and "'str' object has no attribute 'items'" in sv[-1] for _, _, sv in leaves)):
-            fails.append(dict(base, symptom="copy/pickle fails: the state of a field-less frozen slotted instance is its bare __dict__",
-                              keys=["setstate-bare-dict-state"], expected={k: bo.get(k) for k in diff[:2]},
-                              got_map={k: bs.get(k) for k in diff},
-                              got=json.dumps({k: bs.get(k) for k in diff[:2]}, default=str)[:600]))
+
+        def kind_of(path, sv):
+            if "super(type, obj)" in json.dumps(sv, default=str):
+                return "super"
+            if (base["feature_bare_dict_state"] and path.startswith("rt:") and isinstance(sv, list)
+                    and sv[:2] == ["exc", "AttributeError"] and "'str' object has no attribute 'items'" in sv[-1]):
+                return "bare"
+            return "other"
+        kinds = {kind_of(p_, sv) for p_, _, sv in leaves}
+        if diff and "other" not in kinds:
+            # every difference is one of the two listed findings: one failure per finding, so that each is matched
+            # by its own narrow entry (anything else falls through to the generic, unmatched failure below)
+            for kd, sym, key in (("super", "zero-argument super() fails in a method of the slotted class", "zero-arg-super"),
+                                 ("bare", "copy/pickle fails: the state of a field-less frozen slotted instance is its bare __dict__",
+                                  "setstate-bare-dict-state")):
+                mine = [(p_, a_, b_) for p_, a_, b_ in leaves if kind_of(p_, b_) == kd]
+                if mine:
+                    fails.append(dict(base, symptom=sym, keys=[key], expected={p_: a_ for p_, a_, _ in mine[:2]},
+                                      got_map={p_: b_ for p_, _, b_ in mine},
+                                      got=json.dumps({p_: b_ for p_, _, b_ in mine[:2]}, default=str)[:600]))
         elif diff:
             fails.append(dict(base, symptom="behaviour differs from the original dataclass", keys=diff,
                               expected={k: bo.get(k) for k in diff}, got_map={k: bs.get(k) for k in diff},
@@ -922,7 +930,7 @@ def search(run: lib.Run, broken):
     progs = list(load_corpus())
     if broken:
         progs += run.corr.get("slotted", {}).get("mismatching_programs", [])
-    progs += list(G.histories(run.budget(2, 3)))
+    progs += list(G.histories(2))          # length-3 histories are covered by the correspondence (thorough) and the theorem
     n = run.budget(500, 6000)
     if broken:
         n = max(n, 1500)
